@@ -201,8 +201,10 @@ pub fn gen_cfg(seed: u64, case: u64, tier: &str, mode: u8) -> Cfg {
     let mut r = Sm::new(seed, "CTL", case * 10 + mode as u64);
     let num_chains = 1 + r.below(if tier == "thorough" { 8 } else { 5 }) as usize;
     let num_cores = *r.pick(&[1usize, 2, 3, 8, 16]);
-    let num_tune = *r.pick(&[0u64, 5, 20, 40]);
-    let num_draws = *r.pick(&[0u64, 1, 10, 30]);
+    let mut num_tune = *r.pick(&[0u64, 5, 20, 40]);
+    let mut num_draws = *r.pick(&[0u64, 1, 10, 30]);
+    // corpus of past failures runs first: empty runs (a0933f6), single-draw runs
+    match case { 0 => { num_tune = 0; num_draws = 0; } 1 => { num_tune = 0; num_draws = 1; } 2 => { num_tune = 1; num_draws = 0; } _ => {} }
     let nscript = match mode { 0 => r.below(4), 1 => 2 + r.below(8), 2 => 1 + r.below(4), _ => r.below(3) } as usize;
     let mut script = vec![];
     for k in 0..nscript {
